@@ -308,6 +308,21 @@ func (w *ZooWorld) DeliverRawMeta(signer *FAAccount, msg sdk.Msg) (res FATxResul
 	return res
 }
 
+// DeliverMulti delivers ONE transaction carrying all msgs (metadata untouched), signed by
+// exactly signers (in that order), alone in its block.
+func (w *ZooWorld) DeliverMulti(signers []*FAAccount, msgs ...sdk.Msg) (res FATxResult) {
+	if w.FA.Broken {
+		w.FA.Restart()
+	}
+	if p := faRecover(func() { res = w.FA.DeliverOne(FATx{Msgs: msgs, Signers: signers}) }); p != "" {
+		res = FATxResult{Panicked: true, BlockErr: "harness panic: " + p}
+	}
+	if w.FA.Broken {
+		w.FA.Restart()
+	}
+	return res
+}
+
 // DeliverGov delivers msg the way an executed governance proposal does: through
 // the app's message router (ValidateBasic + handler) on deliver state, with
 // authority/creator = the governance module address.  No ante handler runs.
